@@ -129,7 +129,7 @@ Proof.
   intros Hkt Hct quick raw l1 l2 seed row orc [c1 [-> G1]] [c2 [-> G2]].
   unfold simnbr_row, nbr_row, srow_rel. rewrite sim_neighborhood_own.
   destruct (neighborhood N s row orc) as [[|i idx]|]; [| |exact I].
-  - destruct (draw_z RG (create RG seed) (RqChoice (length (n_arms s)) (n_nnprob s))) as [v g'].
+  - destruct (negb (nnprob_len_ok s)); [exact I|]. destruct (draw_z RG (create RG seed) (RqChoice (length (n_arms s)) (n_nnprob s))) as [v g'].
     split; [reflexivity|]. split; eexists; eauto.
   - set (ds := flat_map (fun o => match o with Some a => [a] | None => [] end) (map (fun i0 => nth_error (n_ds s) i0) (i :: idx))).
     set (rs := select (n_rs s) (zero N) (i :: idx)).
@@ -192,7 +192,7 @@ Proof.
   intros Hkt quick raw l1 l2 seed row orc [c1 [-> G1]] [c2 [-> G2]].
   unfold simnbr_row, nbr_row, srow_rel. rewrite sim_neighborhood_own.
   destruct (neighborhood N s row orc) as [[|i idx]|]; [| |exact I].
-  - destruct (draw_z RG (create RG seed) (RqChoice (length (n_arms s)) (n_nnprob s))) as [v g'].
+  - destruct (negb (nnprob_len_ok s)); [exact I|]. destruct (draw_z RG (create RG seed) (RqChoice (length (n_arms s)) (n_nnprob s))) as [v g'].
     split; [reflexivity|]. split; eexists; eauto.
   - set (ds := flat_map _ _). set (rs := select (n_rs s) (zero N) (i :: idx)). set (cx := select (n_cx s) [] (i :: idx)).
     unfold lp_fit.
